@@ -50,16 +50,12 @@ inductive Chk where
   | negIndex                 -- `Kind::insert` at a negative index (no C19 theorem; D_neg_insert_exact_noshift …)
   | kindInsert               -- `Kind::insert` outside the C19 theorem (C19 insertClass)
   | kindMerge                -- `Kind::merge` outside the C19 theorem             (C19 mergeClass)
-  | kindRemove               -- `Kind::remove` at a non-root path (no C19 theorem)
-  | delTyping                -- `del` on a variable: the type state is not updated   (D_del_typing)
+  | kindRemove               -- `Kind::remove` (external path or variable) outside `delPathOk`  (D_del_typing)
+  | delTyping                -- `del({…}.a)`: the container is typed twice, in another order than it runs (D_del_typing)
   | shortCircuitVar          -- the rhs of `||` `&&` `??` defines a variable         (D_short_circuit_defines_var)
   | errPartialEffects        -- lhs of `??` / rhs of `ok, err =` has effects before it may fail
-  | divRhsEffects            -- rhs of `/` has effects (never applied)
-  | divDropsTypeDef          -- `/` drops fallibility / returns of its operands
-  | andDropsTypeDef          -- `&&` / `||` whose lhs decides the outcome at compile time drop the
-                             --   fallibility / returns of the lhs; `true && e` is not `fallible_unless(null|boolean)`
   | scopeLeak                -- path assignment to a variable that is not in scope but that a block left alive
-  | returnDropsReturns       -- `return e` / `abort e` / a function-call argument drop what `e` itself may return
+  | callDropsReturns         -- the argument of `exists({…}.a)` may itself `return` (dropped: D_call_typing)
   | constSignedZero          -- `Details::merge` keeps a constant that is `==` but not identical
   deriving DecidableEq, Repr
 
@@ -77,11 +73,8 @@ def Chk.name : Chk → String
   | .delTyping => "D_del_typing"
   | .shortCircuitVar => "D_short_circuit_defines_var"
   | .errPartialEffects => "D_err_partial_effects"
-  | .divRhsEffects => "D_div_typing"
-  | .divDropsTypeDef => "D_div_typing"
-  | .andDropsTypeDef => "D_short_circuit_const_lhs"
   | .scopeLeak => "D_scope_leak"
-  | .returnDropsReturns => "D_return_drops_returns"
+  | .callDropsReturns => "D_call_typing"
   | .constSignedZero => "D_const_signed_zero"
 
 /-- naming priority of a failed check (driver): the most specific typing quirk first, the generic
@@ -91,9 +84,7 @@ def Chk.priority : Chk → Nat
   | .negIndex => 1
   | .errPartialEffects => 2
   | .shortCircuitVar => 3
-  | .divRhsEffects | .divDropsTypeDef => 4
-  | .andDropsTypeDef => 5
-  | .returnDropsReturns => 6
+  | .callDropsReturns => 6
   | .scopeLeak => 7
   | .constSignedZero => 8
   | .ctorPoststate => 9
@@ -116,7 +107,7 @@ def pickClass (l : List Chk) : Option Chk :=
 /-- can a failure of this side condition leave a variable / the event / the metadata outside its
     reported kind (as opposed to only mis-reporting a result, `returns` or fallibility)? -/
 def Chk.corruptsState : Chk → Bool
-  | .delTyping | .kindRemove | .negIndex | .errPartialEffects | .shortCircuitVar | .divRhsEffects
+  | .delTyping | .kindRemove | .negIndex | .errPartialEffects | .shortCircuitVar
   | .scopeLeak | .kindInsert | .kindMerge | .kindUnion | .kindAt => true
   | _ => false
 
@@ -214,8 +205,8 @@ def tgtChecks (t : Tgt) (T : TState) : List Chk :=
   | .external m p => insertChecks (T.extKind m) p
 
 /-- `Op::type_info` (same arguments as `opInfo`) -/
-def opChecks (o : Opcode) (l : TypeDef) (lv : Option Value) (T1 : TState) (r : TypeDef) (Tr : TState)
-    (rEffectFree : Bool) : List Chk :=
+def opChecks (o : Opcode) (l : TypeDef) (lv : Option Value) (T1 : TState) (r : TypeDef) (Tr : TState) :
+    List Chk :=
   let lu := l.upgradeUndefined
   match o with
   | .err =>
@@ -223,7 +214,7 @@ def opChecks (o : Opcode) (l : TypeDef) (lv : Option Value) (T1 : TState) (r : T
       mergeChecks T1 Tr
   | .or =>
     if lu.kind.isNull || optValueEq lv (some (.bool false)) then
-      chk .andDropsTypeDef (!l.fallible && l.returns.isNever)
+      chk .kindUnion (unionOk Kind.never r.kind) ++ chk .kindUnion (unionOk l.returns r.returns)
     else if !(lu.kind.containsNull || lu.kind.containsBoolean) || optValueEq lv (some (.bool true)) then []
     else
       chk .kindUnion (unionOk lu.kind.withoutNull r.kind) ++
@@ -232,17 +223,11 @@ def opChecks (o : Opcode) (l : TypeDef) (lv : Option Value) (T1 : TState) (r : T
     chk .ctorPoststate (l.kind.isObject && r.kind.isObject) ++ chk .kindMerge (mergeOk l.kind r.kind) ++
       chk .kindUnion (unionOk l.returns r.returns)
   | .and =>
-    if l.kind.isNull || optValueEq lv (some (.bool false)) then
-      chk .andDropsTypeDef (!l.fallible && l.returns.isNever)
-    else if optValueEq lv (some (.bool true)) then
-      -- `rhs.with_kind(boolean)`: neither the lhs' type nor `fallible_unless(null | boolean)` of the rhs
-      chk .andDropsTypeDef (!l.fallible && l.returns.isNever && nullBool.isSuperset r.kind)
+    if l.kind.isNull || optValueEq lv (some (.bool false)) then []
+    else if optValueEq lv (some (.bool true)) then chk .kindUnion (unionOk l.returns r.returns)
     else
       chk .kindUnion (unionOk l.returns r.returns) ++ mergeChecks T1 Tr
-  | .div =>
-    chk .divRhsEffects rEffectFree ++
-      chk .divDropsTypeDef (!l.fallible && !r.fallible && l.returns.isNever && r.returns.isNever) ++
-      chk .nan false
+  | .div => chk .kindUnion (unionOk l.returns r.returns) ++ chk .nan false
   | _ =>
     chk .kindUnion (unionOk l.returns r.returns) ++
       chk .nan (!(isArith o && (arithDef o l r false).kind.prim.float))
@@ -256,6 +241,18 @@ def delPathOk (K : Kind) (p : Path) : Bool :=
   | [] => true
   | [.field _] => K.isObject && K.SortedK && !K.hasNonAnyInf
   | _ => false
+
+/-- the checks of the type-level removal from a variable (`DelFn::type_info`) -/
+def delVarChecks (T : TState) (n : String) (p : Path) (compact : Option Bool) : List Chk :=
+  match T.getVar n with
+  | none => []
+  | some d =>
+    chk .kindRemove (delPathOk d.td.kind p) ++ chk .kindAt (atOk d.td.kind p) ++
+    (match compact with
+     | some _ => []
+     | none =>
+       chk .kindUnion (unionOk (removeTd d.td p false).kind (removeTd d.td p true).kind) ++
+       chk .kindUnion (unionOk T.target T.target) ++ chk .kindUnion (unionOk T.metadata T.metadata))
 
 /-- a `compact` flag the compiler does not know: both results are merged -/
 def delUnionChecks (T : TState) (isMeta : Bool) (p : Path) (compact : Option Bool) : List Chk :=
@@ -306,7 +303,7 @@ mutual
       checks l T ++
       (if o == .err then chk .errPartialEffects (effectFree l) else []) ++
       checks r a.2 ++
-      opChecks o a.1 (constOf l T) a.2 b.1 b.2 (effectFree r)
+      opChecks o a.1 (constOf l T) a.2 b.1 b.2
     | .asg t e, T => checks e T ++ tgtChecks t (typeInfo e T).2
     | .iasg okT errT e dflt, T =>
       let a := typeInfo e T
@@ -328,21 +325,26 @@ mutual
       else []
     | .ret e, T =>
       checks e T ++ chk .ctorPoststate (!(typeInfo e T).1.fallible) ++
-      chk .returnDropsReturns ((typeInfo e T).1.returns.isNever)
+      chk .kindUnion (unionOk (typeInfo e T).1.kind (typeInfo e T).1.returns)
     | .delExt m p hasC c, T =>
       let cT := typeInfo c T
       let T2 := if hasC then cT.2 else T
       let compact := if hasC then (constOf c T2).bind asBoolean else none
       (if hasC then checks c T ++ chk .ctorPoststate (!cT.1.fallible && cT.1.returns.isNever) else []) ++
       delExtChecks T2 m p compact
-    | .delVar _ _ _ _, _ => [.delTyping]
+    | .delVar n p hasC c, T =>
+      let cT := typeInfo c T
+      let T2 := if hasC then cT.2 else T
+      let compact := if hasC then (constOf c T2).bind asBoolean else none
+      (if hasC then checks c T ++ chk .ctorPoststate (!cT.1.fallible && cT.1.returns.isNever) else []) ++
+      chk .structural (T2.getVar n).isSome ++ delVarChecks T2 n p compact
     | .delExpr _ _ _ _, _ => [.delTyping]
     | .existsExt _ _, _ => []
     | .existsVar _ _, _ => []
     | .existsExpr e _, T =>
       -- function-call arguments must be infallible; `FunctionCall::type_info` drops their `returns`
       checks e T ++ chk .ctorPoststate (!(typeInfo e T).1.fallible) ++
-        chk .returnDropsReturns ((typeInfo e T).1.returns.isNever)
+        chk .callDropsReturns ((typeInfo e T).1.returns.isNever)
     | .call _ _ _ _ _ _ _, _ => [.outOfModel]
 
   def checksSeq : Exprs → TState → BlockAcc → List Chk
